@@ -1,32 +1,101 @@
 import Spine.Approval
 open Spine.Appr
+/-! Line protocol for the write-approval model (C12). One op per line, one answer per line.
+    The member of the family is chosen by the command line: `tally=0|1` (tally map re-created: 1 = as written),
+    `stop=0|1` (result of timer.Stop() ignored: 1 = as written). One model state per peer (the maps of
+    feature_local.go are keyed by the peer's SKI; the harness binds every peer to a feature of its own).
 
-def showOut (l : List (Nat × Out)) : String :=
-  let ss := l.map fun (w, o) => s!"{w}:" ++ (match o with | .applied => "applied" | .error => "error")
+    ops:  reset <nCb>            -> ok
+          arrive <p> <w>         -> pres=<number of callback invocations> [outcomes]
+          lookup <id> <p> <w>    -> outcomes (none)
+          commit <id> <p> <0|1>  -> outcomes
+          expire <p> <w>         -> outcomes (timeoutTake ; timeoutSend)
+          take <p> <w> / send <p> <w>   -> the two halves of the timeout on their own
+          pending <p>            -> the pending writes (debugging)
+    outcomes: `.` or a sorted comma-separated list of `<w>:applied`, `<w>:derr` (error produced by a verdict),
+    `<w>:terr` (error produced by the timeout). -/
+
+def kindStr (o : Out) (timeout : Bool) : String :=
+  match o with
+  | .applied => "applied"
+  | .error => if timeout then "terr" else "derr"
+
+def showNew (before : Nat) (s' : St) (timeout : Bool) : String :=
+  let ss := (s'.outcomes.drop before).map fun (w, o) => s!"{w}:{kindStr o timeout}"
   if ss.isEmpty then "." else ",".intercalate (ss.toArray.qsort (· < ·)).toList
 
-def answer (c : Cfg) (s : St) (op : Nat) (ws : List String) : St × String :=
-  let before := s.outcomes.length
-  let s' : St :=
-    match ws with
-    | ["write", w] => step c s (.arrive w.toNat!)
-    | ["verdict", w, a] => step c (step c s (.lookup op w.toNat!)) (.commit op (a == "1"))
-    | ["wait"] => s.armed.foldl (fun s w => step c (step c s (.timeoutTake w)) (.timeoutSend w)) s
-    | _ => s
-  (s', showOut (s'.outcomes.drop before))
+def getP (ps : Array St) (p : Nat) : Option St := ps[p]?
 
-partial def loop (h : IO.FS.Stream) (c : Cfg) (s : St) (op : Nat) : IO Unit := do
+def answer (c : Cfg) (ps : Array St) (ws : List String) : Array St × String :=
+  match ws with
+  | ["arrive", p, w] =>
+    match p.toNat?, w.toNat? with
+    | some p, some w =>
+      match getP ps p with
+      | some s =>
+        let s' := step c s (.arrive w)
+        (ps.set! p s', s!"pres={s'.presented.length - s.presented.length} {showNew s.outcomes.length s' false}")
+      | none => (ps, "bad-op")
+    | _, _ => (ps, "bad-op")
+  | ["lookup", id, p, w] =>
+    match id.toNat?, p.toNat?, w.toNat? with
+    | some id, some p, some w =>
+      match getP ps p with
+      | some s => let s' := step c s (.lookup id w); (ps.set! p s', showNew s.outcomes.length s' false)
+      | none => (ps, "bad-op")
+    | _, _, _ => (ps, "bad-op")
+  | ["commit", id, p, a] =>
+    match id.toNat?, p.toNat?, a.toNat? with
+    | some id, some p, some a =>
+      match getP ps p with
+      | some s => let s' := step c s (.commit id (a == 1)); (ps.set! p s', showNew s.outcomes.length s' false)
+      | none => (ps, "bad-op")
+    | _, _, _ => (ps, "bad-op")
+  | ["expire", p, w] =>
+    match p.toNat?, w.toNat? with
+    | some p, some w =>
+      match getP ps p with
+      | some s => let s' := step c (step c s (.timeoutTake w)) (.timeoutSend w); (ps.set! p s', showNew s.outcomes.length s' true)
+      | none => (ps, "bad-op")
+    | _, _ => (ps, "bad-op")
+  | ["take", p, w] =>
+    match p.toNat?, w.toNat? with
+    | some p, some w =>
+      match getP ps p with
+      | some s => let s' := step c s (.timeoutTake w); (ps.set! p s', showNew s.outcomes.length s' true)
+      | none => (ps, "bad-op")
+    | _, _ => (ps, "bad-op")
+  | ["send", p, w] =>
+    match p.toNat?, w.toNat? with
+    | some p, some w =>
+      match getP ps p with
+      | some s => let s' := step c s (.timeoutSend w); (ps.set! p s', showNew s.outcomes.length s' true)
+      | none => (ps, "bad-op")
+    | _, _ => (ps, "bad-op")
+  | ["pending", p] =>
+    match p.toNat? with
+    | some p => match getP ps p with
+      | some s => (ps, toString s.pending)
+      | none => (ps, "bad-op")
+    | none => (ps, "bad-op")
+  | _ => (ps, "bad-op")
+
+partial def loop (h out : IO.FS.Stream) (c : Cfg) (ps : Array St) : IO Unit := do
   let line ← h.getLine
-  if line.isEmpty then return ()
+  if line.isEmpty then out.flush; return ()
   let ws := (line.trimAscii.toString.splitOn " ").filter (· ≠ "")
   match ws with
-  | ["reset", n] => IO.println "ok"; (← IO.getStdout).flush; loop h c { nCb := n.toNat! } 0
+  | ["reset", n] =>
+    match n.toNat? with
+    | some n => out.putStrLn "ok"; out.flush; loop h out c #[{ nCb := n }, { nCb := n }, { nCb := n }]
+    | none => out.putStrLn "bad-op"; out.flush; loop h out c ps
+  | ["member"] => out.putStrLn s!"tally={c.tallyReset} stop={c.ignoreStop}"; out.flush; loop h out c ps
   | _ =>
-    let (s', out) := answer c s op ws
-    IO.println out
-    (← IO.getStdout).flush
-    loop h c s' (op + 1)
+    let (ps', ans) := answer c ps ws
+    out.putStrLn ans
+    out.flush
+    loop h out c ps'
 
 def main (args : List String) : IO Unit := do
-  let c : Cfg := if args == ["fixed"] then Cfg.clean else if args == ["tally"] then { tallyReset := false, ignoreStop := true } else {}
-  loop (← IO.getStdin) c { nCb := 1 } 0
+  let c : Cfg := { tallyReset := !args.contains "tally=0", ignoreStop := !args.contains "stop=0" }
+  loop (← IO.getStdin) (← IO.getStdout) c #[{ nCb := 1 }, { nCb := 1 }, { nCb := 1 }]
